@@ -52,11 +52,24 @@ theorem query_none_inv {E : Env S Unit π} {s s1 : St S Unit π} {nt : NT S Unit
       | pop_take hpt _ _ => exact Or.inr ⟨_, _, hpt, rfl⟩
   | query_first hp _ _ _ => exact absurd rfl hp
 
+/-- the non-terminal a call works for -/
+def callNT : Call S Unit → NT S Unit
+  | .query nt _ => nt
+  | .lop nt _ => nt
+  | .popLoop nt _ => nt
+  | .addSucc _ nt => nt
+  | .addLoop _ _ nt _ _ _ _ => nt
+
+/-- heaps and `seen` sets of the non-terminals of higher rank are untouched -/
+def FrameH (rank : NT S Unit → Nat) (c : Call S Unit) (s s' : St S Unit π) : Prop :=
+  ∀ nt', rank (callNT c) < rank nt' → s'.heapOf nt' = s.heapOf nt' ∧ s'.seenOf nt' = s.seenOf nt'
+
 /-- the conclusion of the core induction -/
 structure Core (E : Env S Unit π) (rank : NT S Unit → Nat) (H0 : NT S Unit → List (π × Prog)) (c : Call S Unit)
     (s s' : St S Unit π) (r : Option Prog) : Prop where
   full : Full E H0 s'
   frame : OFrame rank c s s'
+  frameH : FrameH rank c s s'
   seen : SeenMono s s'
   stable : Stable s s'
   post : NPost c s' r
@@ -81,7 +94,9 @@ theorem loop_iter {E : Env S Unit π} {rank} {Good} (L : Law E rank Good) {H0 : 
     (∀ nt', rank nt ≤ rank nt' → (pushStep E s1 F args nt i r).succOf nt' = s.succOf nt') ∧
     SeenMono s (pushStep E s1 F args nt i r) ∧ Stable s (pushStep E s1 F args nt i r) ∧
     (pushStep E s1 F args nt i r).deleted = s.deleted ∧ gen E.G ai s2 = true ∧
-    Core E rank H0 (.query s2 (some ai)) s s1 r := by
+    Core E rank H0 (.query s2 (some ai)) s s1 r ∧
+    (∀ nt', rank nt < rank nt' → (pushStep E s1 F args nt i r).heapOf nt' = s.heapOf nt' ∧
+      (pushStep E s1 F args nt i r).seenOf nt' = s.seenOf nt') := by
   obtain ⟨ra, hr, hgl, hlen, hinfo⟩ := hspre
   obtain ⟨hinf, a, ha, hs2⟩ := hinfo hlt
   obtain ⟨hseen, hne, hvals⟩ := hopre
@@ -103,15 +118,20 @@ theorem loop_iter {E : Env S Unit π} {rank} {Good} (L : Law E rank Good) {H0 : 
   have hne1 : s1.succOf nt ≠ [] := by rw [hsame]; exact hne
   have o3 := pushStep_order L c1.full.sinv c1.full.oinv F args nt i r ra a ai hr hgl ha hai (c1.seen _ _ hseen) hne1 hvals1
     (fun q hq' => ⟨by rw [← hs2]; exact c1.post q hq', by rw [← hs2]; exact spost q hq'⟩)
-  obtain ⟨w1, w2, _, w4⟩ := pushStep_views E s1 F args nt i r
+  obtain ⟨w1, w2, w3, w4⟩ := pushStep_views E s1 F args nt i r
   refine ⟨⟨c1.full.sinv.pushStep F args nt i r hgnp, c1.full.ninv.pushStep F args nt i r,
-    hinv_pushStep L c1.full.sinv c1.full.hinv F args nt i r hgnp, o3⟩, ?_, ?_, ?_, w4.trans c1.del, hgai, c1⟩
+    hinv_pushStep L c1.full.sinv c1.full.hinv F args nt i r hgnp, o3⟩, ?_, ?_, ?_, w4.trans c1.del, hgai, c1, ?_⟩
   · intro nt' hle
     rw [w1 nt']
     exact c1.frame nt' (Nat.lt_of_lt_of_le hrank hle)
   · exact fun nt' p hp => w2 nt' p (c1.seen nt' p hp)
   · intro nt' k v hk
     rw [w1 nt']; exact c1.stable nt' k v hk
+  · intro nt' hlt
+    have hne' : nt' ≠ nt := by intro heq; subst heq; exact Nat.lt_irrefl _ hlt
+    obtain ⟨a1, a2⟩ := w3 nt' hne'
+    obtain ⟨b1, b2⟩ := c1.frameH nt' (Nat.lt_trans hrank hlt)
+    exact ⟨a1.trans b1, a2.trans b2⟩
 
 theorem spre_next {E : Env S Unit π} {F : Sym} {args : List Prog} {nt s2 : NT S Unit} {i argsLen : Nat}
     {info : Info S} {ai : Prog} {r' : Info S × NT S Unit}
@@ -165,7 +185,7 @@ theorem big_core {E : Env S Unit π} {rank} {Good} (L : Law E rank Good) {H0 : N
       · rcases h with h | h
         · rw [h] at hx; cases hx
         · rw [hempty] at h; simp at h)
-    exact ⟨c1.full, c1.frame, c1.seen, c1.stable, c1.post, c1.none_post, c1.del⟩
+    exact ⟨c1.full, c1.frame, c1.frameH, c1.seen, c1.stable, c1.post, c1.none_post, c1.del⟩
   | @query_first s s1 s' nt p r0 r hp h h0 hb ih0 ih =>
     intro hf _ _ hpre
     have c0 := ih0 hf trivial trivial (by intro x hx; cases hx)
@@ -190,18 +210,20 @@ theorem big_core {E : Env S Unit π} {rank} {Good} (L : Law E rank Good) {H0 : N
           rw [hf.oinv.fresh nt hempty] at hpt
           have := hfp e h' hpt
           exact ⟨none, by rw [← this]; exact c0.post _ hr0⟩)
-    exact ⟨c1.full, fun nt' hlt => (c1.frame nt' hlt).trans (c0.frame nt' hlt), c0.seen.trans c1.seen,
+    exact ⟨c1.full, fun nt' hlt => (c1.frame nt' hlt).trans (c0.frame nt' hlt),
+      fun nt' hlt => ⟨(c1.frameH nt' hlt).1.trans (c0.frameH nt' hlt).1, (c1.frameH nt' hlt).2.trans (c0.frameH nt' hlt).2⟩,
+      c0.seen.trans c1.seen,
       c0.stable.trans c1.stable, c1.post, c1.none_post, c1.del.trans c0.del⟩
   | lop_hit h =>
     intro hf _ _ _
-    exact ⟨hf, fun _ _ => rfl, fun _ _ h => h, Stable.refl _, (by intro q hq; cases hq; exact h), (by intro hr; cases hr), rfl⟩
+    exact ⟨hf, fun _ _ => rfl, fun _ _ => ⟨rfl, rfl⟩, fun _ _ h => h, Stable.refl _, (by intro q hq; cases hq; exact h), (by intro hr; cases hr), rfl⟩
   | lop_miss h hb ih =>
     intro hf _ _ hpre
     have c1 := ih hf trivial h hpre
-    exact ⟨c1.full, c1.frame, c1.seen, c1.stable, c1.post, c1.none_post, c1.del⟩
+    exact ⟨c1.full, c1.frame, c1.frameH, c1.seen, c1.stable, c1.post, c1.none_post, c1.del⟩
   | pop_empty h =>
     intro hf _ hnone _
-    exact ⟨hf, fun _ _ => rfl, fun _ _ h => h, Stable.refl _, (by intro q hq; cases hq),
+    exact ⟨hf, fun _ _ => rfl, fun _ _ => ⟨rfl, rfl⟩, fun _ _ h => h, Stable.refl _, (by intro q hq; cases hq),
       fun _ => ⟨hnone, (Heapq.pop_none_iff _ _).mp h⟩, rfl⟩
   | @pop_deleted s s1 s' nt key e h' x r h hd ha hb iha ihb =>
     intro hf _ hnone hpre
@@ -219,9 +241,15 @@ theorem big_core {E : Env S Unit π} {rank} {Good} (L : Law E rank Good) {H0 : N
       rcases hpre y hy with ⟨k, hk⟩ | he
       · exact Or.inl ⟨k, by rw [hsucc1]; exact hk⟩
       · exact absurd he hheapne)
-    refine ⟨cb.full, ?_, ?_, ?_, cb.post, cb.none_post, (cb.del.trans ca.del)⟩
+    refine ⟨cb.full, ?_, ?_, ?_, ?_, cb.post, cb.none_post, (cb.del.trans ca.del)⟩
     · intro nt' hlt
       rw [cb.frame nt' hlt, ca.frame nt' (Nat.le_of_lt hlt)]; rfl
+    · intro nt' hlt
+      have hne' : nt' ≠ nt := by intro heq; subst heq; exact Nat.lt_irrefl _ hlt
+      obtain ⟨a1, a2⟩ := ca.frameH nt' hlt
+      obtain ⟨b1, b2⟩ := cb.frameH nt' hlt
+      refine ⟨b1.trans (a1.trans ?_), b2.trans a2⟩
+      rw [St.heapOf_setHeap]; simp [hne']
     · exact fun nt' p hp => cb.seen nt' p (ca.seen nt' p hp)
     · exact fun nt' k v hk => cb.stable nt' k v (ca.stable nt' k v hk)
   | @pop_take s s' nt key e h' x h hd ha iha =>
@@ -235,13 +263,19 @@ theorem big_core {E : Env S Unit π} {rank} {Good} (L : Law E rank Good) {H0 : N
     have hfa : Full E H0 (s.popTake nt key e h') :=
       ⟨h1.congr (fun _ => rfl) (fun _ => rfl) (fun _ => rfl) h1.cache_ok, hna, fun nt' => hha nt', oa⟩
     have ca := iha hfa hg trivial ⟨hseen, hnea, hvals⟩
-    refine ⟨ca.full, ?_, ca.seen, hsta.trans ca.stable, ?_, (by intro hr; cases hr), ca.del⟩
+    refine ⟨ca.full, ?_, ?_, ca.seen, hsta.trans ca.stable, ?_, (by intro hr; cases hr), ca.del⟩
     · intro nt' hlt
       rw [ca.frame nt' (Nat.le_of_lt hlt)]
       show (s.popTake nt key e h').succOf nt' = s.succOf nt'
       rw [popTake_succOf]
       have : nt' ≠ nt := by intro heq; subst heq; exact Nat.lt_irrefl _ hlt
       simp [this]
+    · intro nt' hlt
+      have hne' : nt' ≠ nt := by intro heq; subst heq; exact Nat.lt_irrefl _ hlt
+      obtain ⟨a1, a2⟩ := ca.frameH nt' hlt
+      refine ⟨a1.trans ?_, a2⟩
+      show (s.setHeap nt h').heapOf nt' = s.heapOf nt'
+      rw [St.heapOf_setHeap]; simp [hne']
     · intro q hq
       cases hq
       apply ca.stable
@@ -251,28 +285,29 @@ theorem big_core {E : Env S Unit π} {rank} {Good} (L : Law E rank Good) {H0 : N
       exact AList.lookup_insert_self _ _ _
   | succ_leaf =>
     intro hf _ _ _
-    exact ⟨hf, fun _ _ => rfl, fun _ _ h => h, Stable.refl _, trivial, trivial, rfl⟩
+    exact ⟨hf, fun _ _ => rfl, fun _ _ => ⟨rfl, rfl⟩, fun _ _ h => h, Stable.refl _, trivial, trivial, rfl⟩
   | @succ_fun s s' F a as nt r rl x hd hr hb ih =>
     intro hf hspre _ hpre
     have c1 := ih hf (spre_first hspre hd hr) trivial hpre
-    exact ⟨c1.full, c1.frame, c1.seen, c1.stable, trivial, trivial, c1.del⟩
+    exact ⟨c1.full, c1.frame, c1.frameH, c1.seen, c1.stable, trivial, trivial, c1.del⟩
   | loop_done h =>
     intro hf _ _ _
-    exact ⟨hf, fun _ _ => rfl, fun _ _ h => h, Stable.refl _, trivial, trivial, rfl⟩
+    exact ⟨hf, fun _ _ => rfl, fun _ _ => ⟨rfl, rfl⟩, fun _ _ h => h, Stable.refl _, trivial, trivial, rfl⟩
   | @loop_step s s1 s' F args nt i argsLen info s2 ai r r' x h hai hq hc hda hb ihq ihb =>
     intro hf hspre _ hpre
-    obtain ⟨hf3, f3, m3, st3, d3, hgai, _⟩ := loop_iter L hai h hq ihq hf hspre hpre
+    obtain ⟨hf3, f3, m3, st3, d3, hgai, _, fh3⟩ := loop_iter L hai h hq ihq hf hspre hpre
     have hopre' : OPre E H0 (.addLoop F args nt (i + 1) argsLen r'.1 r'.2) (pushStep E s1 F args nt i r) := by
       refine ⟨m3 _ _ hpre.1, ?_, ?_⟩
       · rw [f3 nt (Nat.le_refl _)]; exact hpre.2.1
       · obtain ⟨pp, hpp, hbd⟩ := hpre.2.2
         exact ⟨pp, hpp, fun k v pv hk hpv => hbd k v pv (by rw [← f3 nt (Nat.le_refl _)]; exact hk) hpv⟩
     have c4 := ihb hf3 (spre_next hspre h hc hgai hda) trivial hopre'
-    exact ⟨c4.full, fun nt' hle => (c4.frame nt' hle).trans (f3 nt' hle), m3.trans c4.seen, st3.trans c4.stable,
-      trivial, trivial, c4.del.trans d3⟩
+    exact ⟨c4.full, fun nt' hle => (c4.frame nt' hle).trans (f3 nt' hle),
+      fun nt' hlt => ⟨(c4.frameH nt' hlt).1.trans (fh3 nt' hlt).1, (c4.frameH nt' hlt).2.trans (fh3 nt' hlt).2⟩,
+      m3.trans c4.seen, st3.trans c4.stable, trivial, trivial, c4.del.trans d3⟩
   | @loop_last s s1 F args nt i argsLen info s2 ai r h hai hq hc ihq =>
     intro hf hspre _ hpre
-    obtain ⟨hf3, f3, m3, st3, d3, _, _⟩ := loop_iter L hai h hq ihq hf hspre hpre
-    exact ⟨hf3, f3, m3, st3, trivial, trivial, d3⟩
+    obtain ⟨hf3, f3, m3, st3, d3, _, _, fh3⟩ := loop_iter L hai h hq ihq hf hspre hpre
+    exact ⟨hf3, f3, fh3, m3, st3, trivial, trivial, d3⟩
 
 end PS.HG
